@@ -1756,9 +1756,14 @@ class IRGenerator:
             # also recurse on enumerated subtypes for structs if present
             seen.add(data_type)
             output_types[data_type.namespace.name].append(data_type)
-            for field in data_type.all_fields:
-                self._find_dependencies_recursive(field, seen, output_types, output_routes,
-                                                  type_context=data_type)
+            # Inherited fields are documented in the namespace of the type that
+            # declares them: resolve their doc references there.
+            declaring_type = data_type
+            while declaring_type is not None:
+                for field in declaring_type.fields:
+                    self._find_dependencies_recursive(field, seen, output_types, output_routes,
+                                                      type_context=declaring_type)
+                declaring_type = declaring_type.parent_type
             if data_type.parent_type is not None:
                 self._find_dependencies_recursive(data_type.parent_type, seen, output_types,
                                                   output_routes)
